@@ -245,14 +245,7 @@ func runC12(c *Ctx) {
 			c.obI("R12.4", r, "pipe-closer-registered-on-every-exit", !pathExists(g, nil, r, nil, isOneOf(pipeCloser)), "the pipe closer is registered before any exit", "")
 		}
 	}
-	// failures reach CloseWithError
-	lc := p.Fn("rt/client.logClose")
-	okLC := false
-	for _, ci := range callsIn(lc, "(*io.PipeWriter).CloseWithError") {
-		_, a := callArgs(ci.Common())
-		okLC = a[0] == ssa.Value(lc.Params[0]) && dominatesAllReturns(lc, ci)
-	}
-	c.obF("R12.4", lc, "logClose-fails-the-pipe", okLC, "logClose closes the pipe writer WITH the error on every path", "")
+	// failures reach CloseWithError (directly, or through a helper such as logClose that does so on every path)
 	for _, in := range instrs(g) {
 		call, ok := in.(*ssa.Call)
 		if !ok || errorResultIndex(call.Call.Signature()) < 0 {
@@ -267,14 +260,7 @@ func runC12(c *Ctx) {
 			c.obI("R12.4", call, "failure-propagated-"+n, false, "every failing step of the upload reaches pw.CloseWithError(err)", "error dropped")
 			continue
 		}
-		isProp := func(i2 ssa.Instruction) bool {
-			ci, ok := i2.(ssa.CallInstruction)
-			if !ok || calleeName(ci.Common()) != "rt/client.logClose" {
-				return false
-			}
-			okk, _ := allOrigins(ci.Common().Args[0], oIsValue(ev))
-			return okk
-		}
+		isProp := func(i2 ssa.Instruction) bool { return failsPipeWith(i2, ev) }
 		isEOF := func(cond ssa.Value, branch bool) bool {
 			// err == io.EOF is not a failure of the sniffing read
 			cnd, b := stripNot(cond, branch)
@@ -414,4 +400,56 @@ func dominatesAllReturns(f *ssa.Function, in ssa.Instruction) bool {
 		}
 	}
 	return true
+}
+
+// failsPipeWith: the instruction closes a pipe writer WITH the error ev — a call of (*io.PipeWriter).CloseWithError
+// whose argument is ev, or a call of a repository helper that, on every path, does so with the parameter ev is
+// bound to.
+func failsPipeWith(in ssa.Instruction, ev ssa.Value) bool {
+	ci, ok := in.(ssa.CallInstruction)
+	if !ok {
+		return false
+	}
+	name := calleeName(ci.Common())
+	if name == "(*io.PipeWriter).CloseWithError" {
+		_, a := callArgs(ci.Common())
+		return someOrigin(a[0], oIsValue(ev))
+	}
+	callee := ci.Common().StaticCallee()
+	if callee == nil || callee.Blocks == nil || !isRepoPath(fnPkgPath(callee)) {
+		return false
+	}
+	for i, arg := range ci.Common().Args {
+		if i >= len(callee.Params) || !someOrigin(arg, oIsValue(ev)) {
+			continue
+		}
+		for _, k := range callsIn(callee, "(*io.PipeWriter).CloseWithError") {
+			_, a := callArgs(k.Common())
+			if a[0] == ssa.Value(callee.Params[i]) && dominatesAllReturns(callee, k) {
+				return true
+			}
+		}
+	}
+	return false
+}
+
+// failsPipe: failsPipeWith for any error value.
+func failsPipe(in ssa.Instruction) bool {
+	ci, ok := in.(ssa.CallInstruction)
+	if !ok {
+		return false
+	}
+	if calleeName(ci.Common()) == "(*io.PipeWriter).CloseWithError" {
+		return true
+	}
+	callee := ci.Common().StaticCallee()
+	if callee == nil || callee.Blocks == nil || !isRepoPath(fnPkgPath(callee)) {
+		return false
+	}
+	for _, k := range callsIn(callee, "(*io.PipeWriter).CloseWithError") {
+		if dominatesAllReturns(callee, k) {
+			return true
+		}
+	}
+	return false
 }
